@@ -58,6 +58,30 @@ fn parse_limb_array(text: &str) -> Option<UInt> {
     Some(from_limbs(&limbs))
 }
 
+/// input class named in violation signatures: radix prefix and sign of the literal text
+fn form_of(l: &Lit) -> String {
+    let t = l.text;
+    let body = t.strip_prefix('-').unwrap_or(t);
+    let radix = match body.get(..2) {
+        Some("0x") => "0x",
+        Some("0X") => "0X",
+        Some("0o") => "0o",
+        Some("0O") => "0O",
+        Some("0b") => "0b",
+        Some("0B") => "0B",
+        _ if body.starts_with('[') => "limbs",
+        _ => "decimal",
+    };
+    let sign = if !t.starts_with('-') {
+        "plain"
+    } else if l.expect == "0" && parse_literal(t).map(|v| v.is_zero()).unwrap_or(false) {
+        "minus-zero"
+    } else {
+        "minus"
+    };
+    format!("{radix}/{sign}")
+}
+
 fn classes_of(rep: &mut Report, l: &Lit) {
     let t = l.text;
     let body = t.strip_prefix('-').unwrap_or(t);
@@ -120,7 +144,8 @@ fn check_field_literals(rep: &mut Report, mi: usize, ops: &PrimeC) {
         rep.eval(digest(&("lit", l.id)), nontrivial);
         rep.op(kind);
         classes_of(rep, l);
-        let sig = |what: &str| format!("literal/{kind}/{what}");
+        let form = form_of(l);
+        let sig = |what: &str| format!("literal/{kind}/{form}/{what}");
         let detail = |extra: Value| json!({"const": format!("C{}", l.id), "modulus": info.name, "p": info.p, "N": n, "literal": l.text, "raw limbs": hex_limbs(l.limbs), "info": extra});
         // decode the constant oracle-side
         let canonical = l.limbs.len() == n && from_limbs(l.limbs) < p;
@@ -176,14 +201,14 @@ fn check_bigint_literals(rep: &mut Report, n: usize) {
         let py: UInt = l.expect.parse().unwrap();
         rep.class(L_PY);
         if l.limbs.len() != n || got != py {
-            rep.violation("literal/BigInt/value-vs-python", detail(json!({"expected": l.expect, "got": got.to_string()})));
+            rep.violation(format!("literal/BigInt/{}/value-vs-python", form_of(l)), detail(json!({"expected": l.expect, "got": got.to_string()})));
         }
         let int = parse_literal(l.text).expect("literal syntax");
         rep.class(L_PARSE);
         rep.class_if(int.magnitude().bits() as usize > 64 * (n - 1), "literal: value fills all N limbs");
         rep.class_if(int.magnitude() >= &pow2(60), "literal: value >= 2^60 (more than 15 hex digits)");
         if SInt::from(got.clone()) != int {
-            rep.violation("literal/BigInt/value-vs-text", detail(json!({"expected": int.to_string(), "got": got.to_string()})));
+            rep.violation(format!("literal/BigInt/{}/value-vs-text", form_of(l)), detail(json!({"expected": int.to_string(), "got": got.to_string()})));
         }
     }
 }
